@@ -202,6 +202,15 @@ theorem lookup_putBack_ne (P : Pool) (k k' : Nat) (st : Step) (hs : KeysSorted P
   · show lookup k' (upsert k st.conn P.conns) = _
     rw [lookup_upsert, if_neg hne]
 
+theorem lookup_putBack_self (P : Pool) (k : Nat) (st : Step) (hs : KeysSorted P.conns) :
+    lookup k (putBack P k st).conns = if st.closed then none else some st.conn := by
+  unfold putBack
+  split
+  · show lookup k (remove k P.conns) = _
+    rw [lookup_remove k k _ hs]; simp
+  · show lookup k (upsert k st.conn P.conns) = _
+    rw [lookup_upsert]; simp
+
 theorem putBack_nextSid (P : Pool) (k : Nat) (st : Step) : (putBack P k st).nextSid = P.nextSid := by
   unfold putBack; split <;> rfl
 
